@@ -149,7 +149,7 @@ func runScenario(sc *scen.Scenario, out *bufio.Writer) {
 	for l := range names {
 		names[l] = slog.Level(l).String()
 	}
-	w.emitV(scen.Event{K: "start", S: fmt.Sprintf("testing=%v level=%d src=%s", is.InTesting(), int(slog.GetLevel()), srcDir())}, map[string]any{"names": names})
+	w.emitV(scen.Event{K: "start", S: fmt.Sprintf("testing=%v level=%d src=%s", is.InTesting(), int(slog.GetLevel()), srcDir())}, map[string]any{"names": names, "slog_terminating": []int{int(slog.LevelFatal), int(slog.LevelPanic)}})
 
 	// setup by task 0, unscheduled
 	w.sch = nil
